@@ -16,6 +16,9 @@ import hashlib
 import json
 import random
 import sys
+import time
+
+import jwt
 
 USERS = ['admin', 'normal', 'viewonly']
 LEVEL = {'admin': 30, 'normal': 20, 'viewonly': 10}
@@ -156,12 +159,23 @@ async def main(out_path, seed, n_random):
     flags['history.is_enabled()'] = bool(core_history.is_enabled())
     flags_on = sorted(n for n, v in flags.items() if v)
 
+    tokens = {}
+    hist_no = [0]
+
     def header(cred):
+        # one header per (user, password) and history: an old credential is replayed as the very same header
         if cred[0] == 'none':
             return None
         if cred[0] == 'garbage':
             return 'Bearer abc.def.ghi'
-        return core_api_auth.make_auth_header(core_api_auth.ORIGIN_CONSUMER, cred[1], sha(pwtext(cred[2])))
+        k = (cred[1], cred[2])
+        if k not in tokens:
+            # the claims make_auth_header issues (iss, ori, usr, iat); iat differs from history to history (inside the
+            # allowed skew) so that no header of an earlier history is ever presented again: each history is self-contained
+            claims = {'iss': core_api_auth.JWT_ISS, 'ori': core_api_auth.ORIGIN_CONSUMER, 'usr': cred[1],
+                      'iat': int(time.time()) - 1 - hist_no[0] % 250}
+            tokens[k] = 'Bearer ' + jwt.encode(claims, key=sha(pwtext(cred[2])), algorithm=core_api_auth.JWT_ALG)
+        return tokens[k]
 
     async def factory_state():
         for u in USERS:
@@ -174,6 +188,8 @@ async def main(out_path, seed, n_random):
     counter = [0]
     for hist in hists:
         await factory_state()
+        tokens.clear()
+        hist_no[0] += 1
         steps = []
         for op, cred in hist:
             counter[0] += 1
